@@ -109,10 +109,19 @@ def _run_requests(ctx, case, w):
             recv.append(w.new_key() if k else w.get_key())
     # model of the unspent set
     model = {}
+    txid = None
     for n, u in enumerate(case['utxos']):
         key = recv[u['key'] % len(recv)]
-        txid = wu.fake_txid(case['rng'], n)
         out_n = u['n']
+        if u.get('same_tx') and txid is not None and u['conf'] == last_conf:
+            # another output of the transaction that carried the previous one
+            used = [o for (t_, o) in model if t_ == txid]
+            if out_n in used:
+                out_n = max(used) + 1
+            ctx.klass('utxos.several_outputs_of_one_tx')
+        else:
+            txid = wu.fake_txid(case['rng'], n)
+        last_conf = u['conf']
         w.utxo_add(key.address, u['value'], txid, out_n, confirmations=u['conf'])
         model[(txid, out_n)] = {'value': u['value'], 'conf': u['conf'], 'address': key.address}
     consumed = {}      # outpoints spent by transactions this wallet broadcast -> txid
@@ -440,7 +449,9 @@ def _strategy(ctx):
                                            10 ** 8, 5 * 10 ** 9]), st.integers(1, 10 ** 7 * scale))
         utxos = draw(st.lists(st.fixed_dictionaries({'key': st.integers(0, 3), 'value': value,
                                                      'conf': st.sampled_from([0, 1, 1, 10]),
-                                                     'n': st.integers(0, 3)}), min_size=1, max_size=10))
+                                                     'n': st.integers(0, 3),
+                                                     'same_tx': st.sampled_from([False, False, True])}),
+                              min_size=1, max_size=10))
         okinds = ['p2pkh', 'p2sh'] + ([] if net.startswith('dogecoin') else ['p2wpkh', 'p2wsh', 'p2tr'])
 
         def out():
@@ -471,8 +482,14 @@ def _strategy(ctx):
                                                                 'amount': st.sampled_from([1, 500, 5000, 10 ** 6])})),
         })
         steps = st.one_of(rq, rq, rq, st.just({'op': 'utxos_update'})) if testnet else rq
-        return {'kind': 'wallet', 'wallet': wallet, 'utxos': utxos,
-                'requests': draw(st.lists(steps, min_size=1, max_size=ctx.scale(5, 7))),
+        requests = draw(st.lists(steps, min_size=1, max_size=ctx.scale(5, 7)))
+        if testnet and draw(st.integers(0, 3)) == 0:
+            # directed start: everything the wallet owns is spent by ONE broadcast transaction (many inputs, also
+            # several outputs of one funding transaction), the requests that follow must find nothing of it
+            first = dict(draw(rq), op='sweep', broadcast=True, min_confirms=0, max_utxos=None, fee=None, bump=None,
+                         sweep_list=False)
+            requests = [first] + requests
+        return {'kind': 'wallet', 'wallet': wallet, 'utxos': utxos, 'requests': requests,
                 'rng': draw(st.integers(0, 2 ** 31))}
     return cases()
 
